@@ -277,10 +277,16 @@ func (m *SessionManager) Count() int {
 
 // CleanupExpired removes sessions that have been inactive
 func (m *SessionManager) CleanupExpired(timeout time.Duration) int {
+	return len(m.RemoveExpired(timeout))
+}
+
+// RemoveExpired removes sessions that have been inactive and returns them, so
+// that the caller can release what they still hold
+func (m *SessionManager) RemoveExpired(timeout time.Duration) []*Session {
 	m.mu.Lock()
 	defer m.mu.Unlock()
 
-	var removed int
+	var removed []*Session
 	now := time.Now()
 
 	for id, session := range m.sessions {
@@ -293,7 +299,7 @@ func (m *SessionManager) CleanupExpired(timeout time.Duration) int {
 				delete(m.macToSession, session.ClientMAC.String())
 			}
 			delete(m.sessions, id)
-			removed++
+			removed = append(removed, session)
 		}
 	}
 
